@@ -741,6 +741,10 @@ BValOps peepBValOpInfo[] = {
 { OpMOne,	0, OpNone,  OpNone,  OpNone,  OpNone, OpNone,    OpNone},
 { OpTrue,	0, OpNone,  OpNone,  OpNone,  OpNone, OpNone,    OpNone},
 { OpFalse,	0, OpNone,  OpNone,  OpNone,  OpNone, OpNone,    OpNone},
+{ OpNonZero,	1, OpNone,  OpNone,  OpNone,  OpNone, OpNone,    OpNone},
+{ OpNonNeg,	1, OpNone,  OpNone,  OpNone,  OpNone, OpNone,    OpNone},
+{ OpNonPos,	1, OpNone,  OpNone,  OpNone,  OpNone, OpNone,    OpNone},
+{ OpId,		1, OpNone,  OpNone,  OpNone,  OpNone, OpNone,    OpNone},
 /* Finis. */
 { -1,		1, OpNone,  OpNone,  OpNone,  OpNone, OpNone,    OpNone}
 };
